@@ -120,6 +120,17 @@ pub struct World {
     /// HOME / XDG_CONFIG_HOME relative to the world root (None = unset)
     pub home: Option<String>,
     pub xdg: Option<String>,
+    /// symbolic links to regular files: link path (world-relative) -> target as stored in the
+    /// link (relative to the link's directory)
+    #[serde(default)]
+    pub symlinks: BTreeMap<String, String>,
+    /// run the CLI as an unprivileged user (uid/gid 65534) so that permission bits bite;
+    /// every directory is then 0777 and every file 0666 unless `modes` says otherwise
+    #[serde(default)]
+    pub unpriv: bool,
+    /// permission bits of files / directories (world-relative path -> mode), applied last
+    #[serde(default)]
+    pub modes: BTreeMap<String, u32>,
 }
 
 #[derive(Serialize, Deserialize, Clone, Debug, Default, PartialEq)]
@@ -142,9 +153,29 @@ pub struct FileState {
 pub struct Snapshot {
     pub files: BTreeMap<String, FileState>,
     pub dirs: Vec<String>,
+    /// symbolic links: path -> target text
+    pub links: BTreeMap<String, String>,
 }
 
 impl World {
+    /// The regular file a world-relative path denotes, following a file symlink if it is one.
+    pub fn real_path(&self, p: &str) -> Option<String> {
+        if self.files.contains_key(p) {
+            return Some(p.to_string());
+        }
+        let target = self.symlinks.get(p)?;
+        let dir = match p.rfind('/') {
+            Some(i) => &p[..i],
+            None => "",
+        };
+        let real = world_rel(dir, target)?;
+        if self.files.contains_key(&real) {
+            Some(real)
+        } else {
+            None
+        }
+    }
+
     pub fn materialise(&self, root: &Path) -> std::io::Result<()> {
         if root.exists() {
             std::fs::remove_dir_all(root)?;
@@ -158,13 +189,54 @@ impl World {
             }
             std::fs::write(&full, bytes)?;
         }
+        for (l, target) in &self.symlinks {
+            let full = root.join(l);
+            if let Some(parent) = full.parent() {
+                std::fs::create_dir_all(parent)?;
+            }
+            std::os::unix::fs::symlink(target, &full)?;
+        }
         if let Some(h) = &self.home {
             std::fs::create_dir_all(root.join(h))?;
         }
         if let Some(h) = &self.xdg {
             std::fs::create_dir_all(root.join(h))?;
         }
+        if self.unpriv {
+            use std::os::unix::fs::PermissionsExt;
+            fn open_up(dir: &Path) -> std::io::Result<()> {
+                std::fs::set_permissions(dir, std::fs::Permissions::from_mode(0o777))?;
+                for e in std::fs::read_dir(dir)? {
+                    let e = e?;
+                    let md = std::fs::symlink_metadata(e.path())?;
+                    if md.file_type().is_symlink() {
+                        continue;
+                    }
+                    if md.is_dir() {
+                        open_up(&e.path())?;
+                    } else {
+                        std::fs::set_permissions(e.path(), std::fs::Permissions::from_mode(0o666))?;
+                    }
+                }
+                Ok(())
+            }
+            open_up(root)?;
+            // deepest paths first, so that closing a directory does not get in the way
+            let mut ms: Vec<(&String, &u32)> = self.modes.iter().collect();
+            ms.sort_by_key(|(p, _)| std::cmp::Reverse(p.matches('/').count()));
+            for (p, m) in ms {
+                std::fs::set_permissions(root.join(p), std::fs::Permissions::from_mode(*m))?;
+            }
+        }
         Ok(())
+    }
+
+    pub fn mode_of(&self, p: &str) -> Option<u32> {
+        if self.unpriv {
+            self.modes.get(p).cloned()
+        } else {
+            None
+        }
     }
 
     /// Overwrite / create exactly the files that differ from `have` (used between the
@@ -184,7 +256,10 @@ pub fn snapshot(root: &Path) -> std::io::Result<Snapshot> {
             let p = e.path();
             let rel = p.strip_prefix(root).unwrap().to_string_lossy().into_owned();
             let md = std::fs::symlink_metadata(&p)?;
-            if md.is_dir() {
+            if md.file_type().is_symlink() {
+                let t = std::fs::read_link(&p).map(|t| t.to_string_lossy().into_owned()).unwrap_or_default();
+                s.links.insert(rel, t);
+            } else if md.is_dir() {
                 s.dirs.push(rel);
                 walk(root, &p, s)?;
             } else {
